@@ -527,7 +527,8 @@ def add_custom_columns(rng: random.Random, form: dict, hostile: bool = False) ->
 # ---- exotics: rarely used but accepted features, added on top of a generated form -----------------------------------
 LEGACY_HINT_TYPES = ["phone number", "number of days in last month", "number of days in last six months", "number of days in last year"]
 EXOTIC_KINDS = ["osm", "search", "legacy_hint", "choice_parent", "empty_group", "bad_choice_col", "audit", "count_expr", "calc_msgs",
-                "file_selects", "entity_variants", "hint_only_computed", "seeded_select"]
+                "file_selects", "entity_variants", "hint_only_computed", "seeded_select", "loop", "shared_repeat_name", "table_list_repeat", "table_list_repeat_plain", "noapp_ref", "group_media",
+                "group_truth", "two_instance_exprs"]
 
 
 def form_langs(form: dict) -> tuple[list[str], str]:
@@ -738,6 +739,69 @@ def add_exotics(rng: random.Random, form: dict, kinds, p=0.5) -> list[str]:
             exts = rng.sample([".csv", ".xml", ".geojson"], rng.choice([1, 2]))
             for e in exts:
                 survey.append({"type": f"select_one_from_file {stem if rng.random() < 0.8 else stem + 'x'}{e}", "name": _fresh(form, "sf"), "label": "From file"})
+        elif kind == "loop":
+            # the legacy loop: rows copied once per choice of a list; plain rows, rows with placeholders, a percent sign that is just text
+            lst = _fresh(form, "ll")
+            n = rng.choice([2, 3])
+            form.setdefault("choices", []).extend({"list_name": lst, "name": nm, "label": nm.capitalize()} for nm in ["maize", "beans", "millet"][:n])
+            body = [{"type": "integer", "name": _fresh(form, "bags"), "label": rng.choice(["How many bags?", "Bags of %(label)s?", "100% sure?"])}]
+            if rng.random() < 0.5:
+                body.append({"type": "text", "name": _fresh(form, "lnote"), "label": "Notes", "hint": rng.choice(["plain", "about %(name)s"])})
+            if rng.random() < 0.3:
+                body[0]["required"] = "yes"
+            survey += [{"type": f"begin loop over {lst}", "name": _fresh(form, "harvest"), "label": "Harvest"}, *body, {"type": "end loop"}]
+        elif kind == "shared_repeat_name":
+            # a repeat whose name is also the name of an unrelated question in another group (legal: neither is referenced by name);
+            # references between the repeat's own questions must still be relative
+            nm = _fresh(form, "child")
+            a, b = _fresh(form, "cname"), _fresh(form, "cage")
+            survey += [{"type": "begin repeat", "name": nm, "label": "Child"},
+                       {"type": "text", "name": a, "label": "Name"},
+                       {"type": "integer", "name": b, "label": "Age of ${%s}" % a, "relevant": "${%s} != ''" % a, "constraint": ". < 150 or ${%s} = 'x'" % a},
+                       {"type": "end repeat"},
+                       {"type": "begin group", "name": _fresh(form, "other"), "label": "Other"}, {"type": "text", "name": nm, "label": "Same name elsewhere"}, {"type": "end group"}]
+        elif kind in ("table_list_repeat", "table_list_repeat_plain"):
+            lst = _fresh(form, "tl")
+            form.setdefault("choices", []).extend({"list_name": lst, "name": n_, "label": n_.upper()} for n_ in ("y", "n"))
+            inner = ([{"type": f"select_one {lst}", "name": _fresh(form, "tq"), "label": "Q"}] if rng.random() < 0.5 and kind == "table_list_repeat"
+                     else [{"type": "text", "name": _fresh(form, "tt"), "label": "T"}])
+            survey += [{"type": "begin repeat", "name": _fresh(form, "trep"), "label": "R", "appearance": "table-list"}, *inner, {"type": "end repeat"}]
+            later = {"type": f"select_one {lst}", "name": _fresh(form, "after"), "label": "After", "appearance": "minimal"}
+            if rng.random() < 0.5:
+                survey += [{"type": "begin group", "name": _fresh(form, "tg"), "label": "G"}, {"type": "text", "name": _fresh(form, "tx"), "label": "X"}, later, {"type": "end group"}]
+            else:
+                survey.append(later)
+        elif kind == "noapp_ref":
+            # an untranslated noAppErrorString holding a reference stays a plain (substituted) attribute value
+            target = rng.choice(qnames) if qnames else None
+            if target:
+                survey.append({"type": "text", "name": _fresh(form, "launch"), "label": "Launch", "appearance": "ex:org.example.app",
+                               rng.choice(["noAppErrorString", "no_app_error_string", "bind::jr:noAppErrorString"]): "The app for ${%s} is not installed" % target})
+        elif kind == "group_media":
+            for r in survey:
+                if r.get("type", "").startswith(("begin group", "begin repeat")) and any(k.startswith("label") for k in r) and rng.random() < 0.7:
+                    col = rng.choice(["image", "audio", "video", "big-image"])
+                    if col == "big-image":
+                        r["image"] = "small.png"
+                    _translated(rng, r, col, langs, delim, ["g.png", "pic.jpg"], p_plain=0.4)
+        elif kind == "group_truth":
+            for r in survey:
+                if r.get("type", "").startswith(("begin group", "begin repeat")) and rng.random() < 0.7:
+                    r[rng.choice(["readonly", "relevant", "required"])] = rng.choice(["yes", "TRUE", "no", "true()", "false", "Yes"])
+        elif kind == "two_instance_exprs":
+            # the same text with two instance() expressions in two places (two languages, or two rows)
+            lst = _fresh(form, "dl")
+            form.setdefault("choices", []).extend({"list_name": lst, "name": n_, "label": n_.upper()} for n_ in ("a", "b"))
+            survey.append({"type": f"select_one {lst}", "name": _fresh(form, "dsel"), "label": "Pick"})
+            txt = "District: instance('%s')/root/item[name = 'a']/label -- it has to survive unchanged; again: instance('%s')/root/item[name = 'b']/label." % (lst, lst)
+            row = {"type": "note", "name": _fresh(form, "dnote")}
+            if langs and len(langs) >= 2:
+                for lang in langs:
+                    row[f"label{delim}{lang}"] = txt
+            else:
+                row["label"] = txt
+                survey.append({"type": "note", "name": _fresh(form, "dnote2"), "label": txt})
+            survey.append(row)
         else:
             continue
         applied.append(kind)
